@@ -260,6 +260,31 @@ class VectorParameter:
         for i, param in enumerate(self._parameters):
             param.set(val_array[i])
 
+    def __matmul__(self, other: object) -> Expression:
+        """Dot product with a vector of variables: ``prices @ x``.
+
+        The result reads the parameter values at evaluation time, so
+        :meth:`set` is honoured by later evaluations and solves.
+        """
+        from optyx.core.errors import DimensionMismatchError
+        from optyx.core.vectors import VectorExpression, VectorVariable
+
+        if isinstance(other, VectorVariable):
+            elements: list[Expression] = list(other._variables)
+        elif isinstance(other, VectorExpression):
+            elements = list(other._expressions)
+        else:
+            return NotImplemented
+        if len(elements) != self.size:
+            raise DimensionMismatchError(
+                operation="VectorParameter @ vector",
+                left_shape=self.size,
+                right_shape=len(elements),
+            )
+        return VectorExpression(
+            [p * e for p, e in zip(self._parameters, elements)]
+        ).sum()
+
     def get_values(self) -> NDArray[np.floating]:
         """Get all current parameter values as array."""
         return np.array([p.value for p in self._parameters])
